@@ -104,7 +104,9 @@ struct Session {
     Session(bool serial_, bool mem16_, size_t blocksize, int srckind = 1, bool chunk_snk = true, Bytes input = {})
         : serial(serial_), mem16(mem16_), src(srckind != 0, std::move(input)), snk(chunk_snk), led(blocksize) {
         if (srckind >= 2) src.lend((size_t)srckind);
-        regp_init(&p);
+        // two documented ways to get a fresh instance: regp_init(), or the static initialiser RP_NEW_INSTANCE completed with the regp_use_*()
+        // setters. Which one a session uses follows from bit 1 of its block size (see Ledger for bit 0).
+        if (blocksize & 2) { RegP fresh = RP_NEW_INSTANCE; p = fresh; } else regp_init(&p);
         if (mem16) regp_use_memory16(&p, vp_read16, vp_write16); else regp_use_memory8(&p, vp_read8, vp_write8);
         regp_use_channel(&p, serial ? RP_EP_SERIAL : RP_EP_TCP, src.src, snk.snk);
         regp_use_allocator(&p, &led.ba);
